@@ -112,7 +112,9 @@ def run_permutations(shard):
 
 # stereo that exists only through a ring axis (alkylidene-cycloalkanes, ring-ring double bonds, ring-attached allenes): RDKit does not perceive it
 AXIAL = ['C/C=C1/CC[C@H](C)CC1', 'C/C=C1\\CC[C@H](C)CC1', 'C1C[C@H](C)CC/C1=C/C', 'C[C@H]1CCC(CC1)=C1CC[C@H](C)CC1', 'C[C@H]1CCC(CC1)=C1CC[C@@H](C)CC1', 'CC=[C@]=C1CC[C@H](C)CC1',
-         'CC=[C@@]=C1CC[C@H](C)CC1', 'C/C=C1/C[C@H](C)C1', 'F/C=C1/C[C@@H](C)C1', 'C/C=C1/CC[C@](C)(F)CC1']
+         'CC=[C@@]=C1CC[C@H](C)CC1', 'C/C=C1/C[C@H](C)C1', 'F/C=C1/C[C@@H](C)C1', 'C/C=C1/CC[C@](C)(F)CC1',
+         # spiro atom joining a symmetric and an unsymmetric ring, its only stereogenic partner in the symmetric ring
+         'C[C@H]1CC[C@]2(CC1)CCO2', 'C[C@H]1CC[C@@]2(CC1)CCO2', 'C[C@H]1C[C@]2(C1)CCO2', 'C[C@H]1CC[C@]2(CC1)CCCN2']
 
 
 def n_labels(m):
@@ -158,8 +160,25 @@ def run_spellings(shard):
         except Exception:
             acc.ood['chython rejects'] += 1
             continue
+        if s in AXIAL and n_labels(m) != 2:
+            # hand-asserted: both marks of these texts sit on elements that are stereogenic (through a ring axis / a spiro junction)
+            acc.fail('a mark on a stereogenic element is dropped when the text is read (ring-axis / spiro family) :: %s' % s, mol=s, got=n_labels(m), expected=2)
         texts = {}
         n = len(m)
+        # spellings with atom maps whose numbers run against the writing order (the reader must go by the position in the string)
+        for shift in (1, 2):
+            try:
+                c_ = m.copy()
+                nn = list(c_)
+                c_.remap({x: x + 1000 for x in nn})
+                c_.remap({x + 1000: y for x, y in zip(nn, nn[shift:] + nn[:shift] if shift == 1 else nn[::-1])})
+                mt = format(c_, 'm')
+                import re as _re
+                if not _re.search(r'@[^\]]*H[^\]]*:|@[^\]]*:', mt):
+                    continue
+                texts.setdefault(mt, ('own', ['mapped', shift]))
+            except Exception:
+                pass
         for text, order, script in chooser.explore(m, 'r', bound=None if n <= 7 else (2 if n <= 10 else 1), limit=300):
             texts.setdefault(text, ('own', list(script)))
         nat = rd0.GetNumAtoms()
@@ -653,7 +672,7 @@ def replay(rec):
                 a.merge(run_wedges((k, 32, 'thorough')))
         finally:
             M.corpus = orig
-    elif 'spelling' in key:
+    elif 'spelling' in key or 'dropped when the text is read' in key:
         orig = M.corpus
         M.corpus = lambda **kw: [rec['mol']]
         a = Acc()
